@@ -137,12 +137,7 @@ class SymBuilder:
 
     def symlist(self, name, comps, scalar=False):
         """Symbolic list: comps = [(component name, type)]"""
-        arrs = []
-        for cn, ty in comps:
-            arrs.append((z3.Array('%s.%s' % (name, cn), z3.IntSort(), sort_of(ty)), ty))
-        n = VInt(self.ctx._const(name + '.len', z3.IntSort()))
-        self.ctx.assume(n.t >= 0)
-        o = self.ctx.alloc(HObj('list', 'symlist', {'len': n, 'comps': arrs, 'scalar': scalar}, closed=True))
+        o = self.ctx.new_symlist(name, tuple(comps), scalar)
         self.leaves[name] = ('symlist', o)
         self.objects[name] = o
         return o
@@ -206,7 +201,7 @@ def run_function_paths(prog, reg, con, case_assign, max_paths=400, quick_ms=300)
                 fr.recv_cls = ctx.heap[args['self'].oid].cls
             pre = ContractView(ctx, ctx.heap, ctx.heap, args, dict(ctx.ghost))
             for cid, f in con.requires(pre):
-                ctx.assume(S._b(f))
+                ctx.assume_spec(f)
             if not ctx.feasible():
                 pr.status = 'infeasible'
                 pr.detail = 'requires unsatisfiable in this case'
